@@ -257,6 +257,15 @@ impl Family for C06Family {
             let pos = r.usize(c.actors[a].ops.len() + 1);
             c.actors[a].ops.insert(pos, plain_op(kind));
         }
+        // now and then a U2F key handle is registered twice for the same application
+        if r.chance(1, 8) {
+            let (challenge, application, handle) = (r.bytes(32), r.bytes(32), r.bytes_range(1, 40));
+            let a = r.usize(n);
+            for _ in 0..2 {
+                let pos = r.usize(c.actors[a].ops.len() + 1);
+                c.actors[a].ops.insert(pos, plain_op(OpKind::U2fRegister { challenge: challenge.clone(), application: application.clone(), handle: handle.clone(), le: false }));
+            }
+        }
         Scenario { family: "C06".into(), batch: if faulty { "faults" } else { "strict" }.into(), seed: master, index, body: Body::Ceremony(c) }
     }
 
